@@ -197,6 +197,7 @@ class Skel:
         else:
             val, wid = None, args[1]
         wn = F.ex[F.strip_casts(wid)]
+        wexp = None
         # a width kept in a local with a single definition is that definition (`int bits=ov_ilog(n-1); read(opb,bits)`)
         for _ in range(3):
             if wn['k'] == 'ref' and wn['decl']['kind'] == 'var':
@@ -204,16 +205,19 @@ class Skel:
                 d = common.single_defs(F).get(wn['decl']['id'])
                 if d is None:
                     break
-                dc = self.canon(F, d)
+                # locals in the definition that are plain copies of a scalar field, unchanged since, print as the field
+                # (`const int channels=vi->channels; const int chbits=ov_ilog(channels-1);`)
+                dc = common.canon_at(F, d, self, call)
                 # only a definition in terms of set-up fields says more than "some local" (a width that was itself read
                 # from the stream, or computed from other locals, stays a wild card)
                 if '.' not in dc or READ in dc or WRITE in dc:
                     break
                 wid = d
                 wn = F.ex[F.strip_casts(wid)]
+                wexp = dc
             else:
                 break
-        width = wn['v'] if wn['k'] == 'int' else self.canon(F, wid)
+        width = wn['v'] if wn['k'] == 'int' else (wexp if wexp is not None else self.canon(F, wid))
         if self.mode == 'w':
             base, off = self.affine(F, val)
             role = self.role_of(F, base, {})
@@ -300,7 +304,7 @@ class Skel:
                                 env[G.params[i]['id']] = cs
                     sub = Skel(self.P, self.mode, self.slot_fields, env)
                     sub._has = self._has
-                    items.append(('CALL', d, sub.of(G, depth + 1)))
+                    items.append(('CALL', d, sub.of(G, depth + 1), call))
             elif 'slot' in cal and cal['slot'][1] in self.slot_fields:
                 items.append(('SLOT', cal['slot'][0], cal['slot'][1]))
         return items
@@ -311,28 +315,50 @@ class Skel:
         k = s['k']
         if k == 'seq':
             out = []
-            for c in s['c']:
+            cs = list(s['c'])
+            for i, c in enumerate(cs):
+                # `if(c){X; continue;} REST`  ==  `if(c){X} else {REST}` (and the mirror image): the layout of one loop
+                # iteration has no jump left in it
+                if c and c['k'] == 'if' and i + 1 < len(cs):
+                    th, el = c.get('then'), c.get('else')
+                    if self._ends_iter(th) and not self._ends_iter(el):
+                        rest = {'k': 'seq', 'c': ([el] if el else []) + cs[i + 1:]}
+                        c2 = dict(c, then=self._drop_continue(th))
+                        c2['else'] = rest
+                        return out + self._stmt(F, c2, depth, lf)
+                    if el is not None and self._ends_iter(el) and not self._ends_iter(th):
+                        rest = {'k': 'seq', 'c': ([th] if th else []) + cs[i + 1:]}
+                        c2 = dict(c, then=rest)
+                        c2['else'] = self._drop_continue(el)
+                        return out + self._stmt(F, c2, depth, lf)
                 out += self._stmt(F, c, depth, lf)
             return out
+        if k == 'continue':
+            return []
         if k in ('expr', 'decl'):
             return self._expr_items(F, s['e'], depth, lf)
         if k == 'ret':
             rn = F.ex[s['e']]
             err = False
+            val = None
             if rn.get('c'):
                 v = F.ex[F.strip_casts(rn['c'][0])]
-                if v['k'] == 'int' and (v['v'] < 0 or (v['v'] == 0 and F.d['ret_t'].endswith('*'))):
+                if v['k'] == 'int':
+                    val = v['v']
+                elif v['k'] == 'un' and v['op'] == '-' and F.ex[F.strip_casts(v['c'][0])]['k'] == 'int':
+                    val = -F.ex[F.strip_casts(v['c'][0])]['v']
+                if val is not None and (val < 0 or (val == 0 and F.d['ret_t'].endswith('*'))):
                     err = True      # error return: the layout is abandoned, not completed
+            if depth > 0 and not F.d['ret_t'].endswith('*'):
+                # inside an inlined helper: the value decides which way the caller's test of the call goes
+                return self._expr_items(F, s['e'], depth, lf) + [('RET', val)]
             return self._expr_items(F, s['e'], depth, lf) + [('ABORT',) if err else ('END',)]
         if k == 'goto':
             return [('ABORT',)]
         if k == 'if':
-            ci = self._expr_items(F, s['cond'], depth, lf)
             th = self._stmt(F, s.get('then'), depth, lf)
             el = self._stmt(F, s.get('else'), depth, lf)
-            if any(x[0] not in ('ABORT', 'END') for x in th + el) or (depth > 0 or True) and (th or el):
-                return ci + [('I', self.canon(F, s['cond']), th, el)]
-            return ci
+            return self._cond_tree(F, s['cond'], th, el, depth, lf)
         if k in ('for', 'while', 'do'):
             out = []
             if k == 'for' and s.get('init'):
@@ -349,6 +375,14 @@ class Skel:
                     bound = self.canon(F, s['cond'])
             inner = ci + body + inc
             if inner:
+                # a test of something the loop never changes can be taken out of it: L{ A I(c){X}{Y} B } ==
+                # I(c){ L{A X B} }{ L{A Y B} }  (the writer's `if(unused){for..}else{for..}` and the reader's
+                # `for..{ if(unused && ..) .. }` are one layout)
+                for ix, it in enumerate(inner):
+                    if it[0] == 'I' and len(it) > 4 and self._invariant_in(F, it[4], s):
+                        a_, b_ = inner[:ix], inner[ix + 1:]
+                        out.append(('I', it[1], [('L', bound, a_ + list(it[2]) + b_)], [('L', bound, a_ + list(it[3]) + b_)]))
+                        return out
                 out.append(('L', bound, inner))
             return out
         if k == 'switch':
@@ -395,6 +429,113 @@ class Skel:
             return self._stmt(F, s.get('body'), depth, lf)
         return []
 
+    def _cond_tree(self, F, cond, th, el, depth, lf):
+        """items of `if(cond) th else el`.  A bit access in a later operand of && / || is evaluated only when the earlier
+        operands let it: `if(unused && !read(1))` reads the bit under `unused` only"""
+        c = F.strip_casts(cond)
+        nd = F.ex[c]
+        if nd['k'] == 'un' and nd['op'] == '!' and self._has_access(F, nd['c'][0]) and \
+                F.ex[F.strip_casts(nd['c'][0])]['k'] == 'bin' and F.ex[F.strip_casts(nd['c'][0])]['op'] in ('&&', '||'):
+            return self._cond_tree(F, nd['c'][0], el, th, depth, lf)
+        if nd['k'] == 'bin' and nd['op'] in ('&&', '||') and self._has_access(F, nd['c'][1]):
+            a, b = nd['c']
+            if nd['op'] == '&&':
+                return self._cond_tree(F, a, self._cond_tree(F, b, th, el, depth, lf), el, depth, lf)
+            return self._cond_tree(F, a, th, self._cond_tree(F, b, th, el, depth, lf), depth, lf)
+        ci = self._expr_items(F, cond, depth, lf)
+        if th or el:
+            # the call whose value the condition tests (possibly negated / compared with 0), for inlined helpers
+            q, pol = c, True
+            while True:
+                qn = F.ex[q]
+                if qn['k'] == 'un' and qn['op'] == '!':
+                    q, pol = F.strip_casts(qn['c'][0]), not pol
+                elif qn['k'] == 'bin' and qn['op'] in ('!=', '==') and F.ex[F.strip_casts(qn['c'][1])]['k'] == 'int' \
+                        and F.ex[F.strip_casts(qn['c'][1])]['v'] == 0:
+                    pol = pol if qn['op'] == '!=' else not pol
+                    q = F.strip_casts(qn['c'][0])
+                else:
+                    break
+            tested = (q, pol) if F.ex[q]['k'] == 'call' else None
+            return ci + [('I', self.canon(F, cond), th, el, c, tested)]
+        return ci
+
+    def _has_access(self, F, e):
+        for q in F.walk(e):
+            nd = F.ex[q]
+            if nd['k'] == 'call':
+                d = nd['callee'].get('d')
+                if d in (READ, WRITE, LOOK):
+                    return True
+                if d:
+                    G = self.P.get(d, F)
+                    if G is not None and self.has_bits(G):
+                        return True
+        return False
+
+    def _ends_iter(self, t):
+        if t is None:
+            return False
+        if t['k'] == 'continue':
+            return True
+        if t['k'] == 'seq' and t['c']:
+            return self._ends_iter(t['c'][-1])
+        return False
+
+    def _drop_continue(self, t):
+        if t is None:
+            return None
+        if t['k'] == 'continue':
+            return {'k': 'seq', 'c': []}
+        if t['k'] == 'seq' and t['c']:
+            return dict(t, c=t['c'][:-1] + [self._drop_continue(t['c'][-1])])
+        return t
+
+    def _invariant_in(self, F, cond, loop_stmt):
+        """cond reads only locals that the loop never assigns, and calls nothing"""
+        ids = set()
+        for q in F.walk(cond):
+            nd = F.ex[q]
+            if nd['k'] == 'call':
+                return False
+            if nd['k'] == 'ref' and nd['decl'].get('kind') in ('var', 'param'):
+                ids.add(nd['decl'].get('id'))
+            if nd['k'] in ('member', 'sub'):
+                return False
+        if not ids:
+            return False
+        exprs = []
+
+        def collect(t):
+            if not t:
+                return
+            for key in ('e', 'cond', 'inc'):
+                if t.get(key) is not None and not isinstance(t.get(key), dict):
+                    exprs.append(t[key])
+            for key in ('then', 'else', 'body', 'init'):
+                if isinstance(t.get(key), dict):
+                    collect(t[key])
+            for c_ in t.get('c', []) or []:
+                if isinstance(c_, dict):
+                    collect(c_)
+        collect(loop_stmt)
+        for e in exprs:
+            for q in F.walk(e):
+                nd = F.ex[q]
+                tgt = None
+                if nd['k'] == 'assign':
+                    tgt = nd['c'][0]
+                elif nd['k'] == 'un' and nd['op'] in ('pre++', 'pre--', 'post++', 'post--', '&'):
+                    tgt = nd['c'][0]
+                elif nd['k'] == 'decl':
+                    if any(v.get('id') in ids for v in nd.get('vars', [])):
+                        return False
+                if tgt is not None:
+                    l = F.ex[F.strip_casts(tgt)]
+                    if l['k'] == 'ref' and l['decl'].get('id') in ids:
+                        return False
+        return True
+
     def _ends(self, t):
         """does statement t end the switch arm (break / return / goto at its tail)?"""
         if t is None:
@@ -411,7 +552,7 @@ class Skel:
 # ----------------------------------------------------------------------------------------------------
 def _has_end(items):
     for it in items:
-        if it[0] == 'END':
+        if it[0] in ('END', 'RET'):
             return True
         if it[0] in ('L', 'CALL') and _has_end(it[2]):
             return True
@@ -427,18 +568,19 @@ def inline(items):
     for it in items:
         if it[0] == 'CALL':
             sub = inline(it[2])
-            # a success return of the helper ends the helper, not the layout: the final `return 0` is dropped; a helper
-            # with an early success return stays a nested item (its paths all continue after the call, see _paths)
-            while sub and sub[-1][0] == 'END':
-                sub = sub[:-1]
-            if _has_end(sub):
-                out.append(('CALL', it[1], sub))
+            # a return of the helper ends the helper, not the layout.  A helper whose only return is the final one is
+            # spliced in; otherwise it stays a nested item: its paths continue after the call, and where the caller tests
+            # the call's value the paths go the way their return value says (see _paths)
+            if sub and sub[-1][0] in ('END', 'RET') and not _has_end(sub[:-1]):
+                out += sub[:-1]
+            elif _has_end(sub):
+                out.append(('CALL', it[1], sub, it[3] if len(it) > 3 else None))
             else:
                 out += sub
         elif it[0] == 'L':
             out.append(('L', it[1], inline(it[2])))
         elif it[0] == 'I':
-            out.append(('I', it[1], inline(it[2]), inline(it[3])))
+            out.append(('I', it[1], inline(it[2]), inline(it[3])) + tuple(it[4:]))
         elif it[0] == 'SW':
             out.append(('SW', it[1], {k: inline(v) for k, v in it[2].items()}))
         else:
@@ -499,6 +641,8 @@ def _only_field_loop(items):
 
 
 def _norm_item(it):
+    if it[0] == 'CALL':
+        return ('CALL', it[1], normalise_writer(it[2])) + tuple(it[3:])
     if it[0] == 'L':
         body = normalise_writer(it[2])
         # L(I(c,[L(x)],[])) : the inner if only skips an empty repetition
@@ -524,7 +668,7 @@ def _norm_item(it):
                 and el[0][1] == th[0][1] + th[1][1] and el[0][2] == th[0][2] \
                 and isinstance(th[1][2], tuple) and th[1][2][0] == 'const' and f'>{th[0][1]})' in it[1].replace(' ', ''):
             el = [('F', th[0][1], el[0][2], el[0][3], el[0][4]), ('F', th[1][1], ('const', 0), 0, el[0][4])]
-        return ('I', it[1], th, el)
+        return ('I', it[1], th, el) + tuple(it[4:])
     return it
 
 
@@ -536,9 +680,28 @@ def paths(items, widths_only=True):
 
 
 def _paths(items, widths_only):
+    done, live, rets = _paths3(items, widths_only)
+    # a RET outside a call item (a helper analysed on its own): an error value abandons the layout, anything else ends it
+    for (p, v) in rets:
+        if v is None or v >= 0:
+            done.add(p)
+    return done, live
+
+
+def _cond_call(it):
+    """('I', canon, th, el, cond id) -> (call eid tested, polarity) when the condition is a call or its negation"""
+    return it[5] if len(it) > 5 else None
+
+
+def _paths3(items, widths_only):
+    """-> (done, live, rets): rets = {(path, value)} for paths that reached a return of an inlined helper"""
     done = set()
     live = {()}
-    for it in items:
+    rets = set()
+    i = 0
+    while i < len(items):
+        it = items[i]
+        i += 1
         if not live:
             break
         k = it[0]
@@ -550,36 +713,70 @@ def _paths(items, widths_only):
         elif k == 'END':
             done |= live
             live = set()
+        elif k == 'RET':
+            rets |= {(p, it[1]) for p in live}
+            live = set()
         elif k == 'L':
-            d2, l2 = _paths(it[2], widths_only)
+            d2, l2, r2 = _paths3(it[2], widths_only)
             body = frozenset(_collapse(p) for p in (d2 | l2))
             body = frozenset(p for p in body if p)
+            # a helper return inside a loop body leaves the loop and the helper
+            rets |= {(p + q, v) for p in live for (q, v) in r2}
             if body:
                 el = ('L', body)
                 live = {p + (el,) for p in live}
         elif k == 'I':
-            da, la = _paths(it[2], widths_only)
-            db, lb = _paths(it[3], widths_only)
+            da, la, ra = _paths3(it[2], widths_only)
+            db, lb, rb = _paths3(it[3], widths_only)
             done |= {p + q for p in live for q in (da | db)}
+            rets |= {(p + q, v) for p in live for (q, v) in (ra | rb)}
             live = {p + q for p in live for q in (la | lb)}
         elif k == 'SW':
-            d_all, l_all = set(), set()
+            d_all, l_all, r_all = set(), set(), set()
             for v, sub in it[2].items():
-                d2, l2 = _paths(sub, widths_only)
+                d2, l2, r2 = _paths3(sub, widths_only)
                 d_all |= d2
                 l_all |= l2
+                r_all |= r2
             if 'default' not in it[2]:
                 l_all.add(())
             done |= {p + q for p in live for q in d_all}
+            rets |= {(p + q, v) for p in live for (q, v) in r_all}
             live = {p + q for p in live for q in l_all}
         elif k == 'CALL':
-            d2, l2 = _paths(it[2], widths_only)
-            live = {p + q for p in live for q in (d2 | l2)}
+            d2, l2, r2 = _paths3(it[2], widths_only)
+            outs = {(q, None) for q in (d2 | l2)} | r2
+            nxt = items[i] if i < len(items) else None
+            tested = None
+            if nxt is not None and nxt[0] == 'I' and len(nxt) > 5 and nxt[5] is not None and len(it) > 3 and nxt[5][0] == it[3]:
+                tested = nxt[5][1]
+            if tested is not None:
+                # the caller branches on the helper's value: each helper path continues in the arm its value selects
+                i += 1
+                da, la, ra = _paths3(nxt[2], widths_only)
+                db, lb, rb = _paths3(nxt[3], widths_only)
+                nl = set()
+                for (q, v) in outs:
+                    arms = []
+                    if v is None:
+                        arms = [(da, la, ra), (db, lb, rb)]
+                    elif (v != 0) == tested:
+                        arms = [(da, la, ra)]
+                    else:
+                        arms = [(db, lb, rb)]
+                    for (dd, ll, rr) in arms:
+                        done |= {p + q + x for p in live for x in dd}
+                        rets |= {(p + q + x, vv) for p in live for (x, vv) in rr}
+                        nl |= {p + q + x for p in live for x in ll}
+                live = nl
+            else:
+                # value not tested right here: an error value (negative) abandons the layout, the others go on
+                live = {p + q for p in live for (q, v) in outs if v is None or v >= 0}
         elif k == 'SLOT':
             live = {p + (('SLOT', it[1]),) for p in live}
-        if len(live) + len(done) > 50000:
+        if len(live) + len(done) + len(rets) > 50000:
             raise AnalysisBroken('skeleton path explosion')
-    return done, live
+    return done, live, rets
 
 
 def _wkey(el):
